@@ -1895,7 +1895,8 @@ func (ctx Ctx) multipleAssignStmt(s *ast.AssignStmt) coq.Binding {
 	if len(s.Rhs) > 1 {
 		ctx.unsupported(s, "multiple assignments on right hand side")
 	}
-	rhs := ctx.expr(s.Rhs[0])
+	// a two-value map lookup yields the pair only in its special form
+	rhs := ctx.exprSpecial(s.Rhs[0], len(s.Lhs) == 2)
 
 	if s.Tok != token.ASSIGN {
 		// This should be invalid Go syntax anyway
